@@ -63,12 +63,24 @@ run_phase() { # $1 = phase name, $2.. = extra go test flags
   # compile only this property's cNN_test.go plus every helper file of the package, so that a
   # broken monitor of another property cannot take this check down
   local lid; lid=$(echo "$ID" | tr 'A-Z' 'a-z')
-  local files; files=$(cd "$H/$pkg" && ls *.go | grep -v -E '^c[0-9]+_test\.go$' | sed "s#^#./$pkg/#" | tr '\n' ' ')
+  # (files named on the command line are compiled whatever their build constraints say, so the
+  # helpers that need the generated overlay are left out unless this is an overlay check)
+  local skip='^c[0-9]+_test\.go$'; [ $snapfs = 0 ] && skip='^(c[0-9]+_test\.go|snapfs_.*)$'
+  local files; files=$(cd "$H/$pkg" && ls *.go | grep -v -E "$skip" | sed "s#^#./$pkg/#" | tr '\n' ' ')
   (cd "$H" && timeout -s QUIT $((timeout_s+60)) go test -modfile="$OUT/go.mod" -tags $tags "${overlay[@]}" "$@" -count=1 -timeout ${timeout_s}s \
       -run "^Test${ID}\$" $files ./$pkg/${lid}_test.go ) >"$OUT/log.$phase" 2>&1
   local rc=$?
   echo $rc > "$OUT/rc.$phase"
 }
+
+if [ "$TIER" = compile ]; then
+  # build-only smoke test of this check's binary (tools/buildall.sh)
+  lid=$(echo "$ID" | tr 'A-Z' 'a-z')
+  skip='^c[0-9]+_test\.go$'; [ $snapfs = 0 ] && skip='^(c[0-9]+_test\.go|snapfs_.*)$'
+  files=$(cd "$H/$pkg" && ls *.go | grep -v -E "$skip" | sed "s#^#./$pkg/#" | tr '\n' ' ')
+  (cd "$H" && go test -modfile="$OUT/go.mod" -tags $tags "${overlay[@]}" -count=1 -run '^$' $files ./$pkg/${lid}_test.go) 2>&1 | tail -5
+  exit ${PIPESTATUS[0]}
+fi
 
 phases=()
 case "$mode" in
